@@ -29,9 +29,13 @@ from comb_spec_searcher.exception import InvalidOperationError, StrategyDoesNotA
 from comb_spec_searcher.strategies import AtomStrategy
 
 
+MARKS = "xyz"
+
+
 class Word(str, CombinatorialObject):
     def size(self) -> int:
-        return str.__len__(self)
+        # a mark in front of a marked word has size 0
+        return str.__len__(self) - (1 if self[:1] in MARKS and self[:1] != "" else 0)
 
 
 def pname(stat: str) -> str:
@@ -49,7 +53,11 @@ class W(CombinatorialClass[Word]):
         alphabet: Iterable[str],
         just_prefix: bool = False,
         stats: Iterable[str] = (),
+        marked: bool = False,
     ):
+        # marked: every word carries a mark x, y or z in front (size 0, no statistic);
+        # only the three-to-one strategy Unmark applies to such a class
+        self.marked = bool(marked)
         self.alphabet = tuple(sorted(alphabet))
         self.prefix = Word(prefix)
         self.patterns = tuple(sorted(map(Word, patterns)))
@@ -57,12 +65,12 @@ class W(CombinatorialClass[Word]):
         self.stats = tuple(sorted("".join(sorted(set(s))) for s in stats))
         assert len(set(self.stats)) == len(self.stats)
         assert all(s for s in self.stats)
-        self._hash = hash((self.prefix, self.patterns, self.alphabet, self.just_prefix, self.stats))
+        self._hash = hash((self.prefix, self.patterns, self.alphabet, self.just_prefix, self.stats, self.marked))
         super().__init__()
 
     # identity ---------------------------------------------------------------
     def key(self):
-        return (self.prefix, self.patterns, self.alphabet, self.just_prefix, self.stats)
+        return (self.prefix, self.patterns, self.alphabet, self.just_prefix, self.stats, self.marked)
 
     def __eq__(self, other: object) -> bool:
         if not isinstance(other, W):
@@ -83,10 +91,11 @@ class W(CombinatorialClass[Word]):
         return f"{p}·Av({','.join(self.patterns)}){st}"
 
     def sid(self) -> str:
-        return (
+        s = (
             f"{self.prefix or 'e'}{'!' if self.just_prefix else ''}|{','.join(self.patterns)}"
             f"|{''.join(self.alphabet)}|{','.join(self.stats)}"
         )
+        return f"M({s})" if self.marked else s
 
     def with_(self, **kw) -> "W":
         d = dict(
@@ -95,6 +104,7 @@ class W(CombinatorialClass[Word]):
             alphabet=self.alphabet,
             just_prefix=self.just_prefix,
             stats=self.stats,
+            marked=self.marked,
         )
         d.update(kw)
         return type(self)(**d)
@@ -108,19 +118,20 @@ class W(CombinatorialClass[Word]):
             alphabet=list(self.alphabet),
             just_prefix=int(self.just_prefix),
             stats=list(self.stats),
+            marked=int(self.marked),
         )
         return d
 
     @classmethod
     def from_dict(cls, d: dict) -> "W":
-        return cls(d["prefix"], d["patterns"], d["alphabet"], bool(int(d["just_prefix"])), d["stats"])
+        return cls(d["prefix"], d["patterns"], d["alphabet"], bool(int(d["just_prefix"])), d["stats"], bool(int(d.get("marked", 0))))
 
     # combinatorial exploration -------------------------------------------------
     def is_empty(self) -> bool:
         return any(p in self.prefix for p in self.patterns)
 
     def is_atom(self) -> bool:
-        return self.just_prefix
+        return self.just_prefix and not self.marked
 
     def minimum_size_of_object(self) -> int:
         return len(self.prefix)
@@ -133,6 +144,7 @@ class W(CombinatorialClass[Word]):
         return sum(1 for ch in word if ch in stat)
 
     def get_parameters(self, obj: Word) -> Tuple[int, ...]:
+        # marks are not letters of the alphabet, so they touch no statistic
         return tuple(self.stat_value(s, obj) for s in self.stats)
 
     def get_minimum_value(self, parameter: str) -> int:
@@ -159,6 +171,11 @@ class W(CombinatorialClass[Word]):
                 yield w
 
     def _words(self, n: int) -> Iterator[Word]:
+        if self.marked:
+            for w in self.with_(marked=False)._words(n):
+                for m in MARKS:
+                    yield Word(m + w)
+            return
         if self.is_empty() or n < len(self.prefix):
             return
         if self.just_prefix:
@@ -195,15 +212,15 @@ class WB(W):
         import json
 
         return json.dumps(
-            [self.prefix, list(self.patterns), list(self.alphabet), int(self.just_prefix), list(self.stats)]
+            [self.prefix, list(self.patterns), list(self.alphabet), int(self.just_prefix), list(self.stats), int(self.marked)]
         ).encode()
 
     @classmethod
     def from_bytes(cls, b: bytes) -> "WB":
         import json
 
-        p, pats, al, jp, st = json.loads(b.decode())
-        return cls(p, pats, al, bool(jp), st)
+        p, pats, al, jp, st, mk = json.loads(b.decode())
+        return cls(p, pats, al, bool(jp), st, bool(mk))
 
 
 class WC(W):
@@ -297,7 +314,7 @@ class Expand(_JsonMixin, DisjointUnionStrategy[W, Word]):
         return ch
 
     def decomposition_function(self, c: W) -> Optional[Tuple[W, ...]]:
-        if c.just_prefix:
+        if c.marked or c.just_prefix:
             return None
         children = []
         for length in range(self.k):
@@ -362,6 +379,8 @@ class RemovePatterns(_JsonMixin, DisjointUnionStrategy[W, Word]):
         super().__init__(**kw)
 
     def decomposition_function(self, c: W) -> Optional[Tuple[W, ...]]:
+        if c.marked:
+            return None
         keep = tuple(p for p in c.patterns if not any(q != p and q in p for q in c.patterns))
         if keep == c.patterns:
             return None
@@ -396,7 +415,7 @@ class AddImpliedPattern(_JsonMixin, DisjointUnionStrategy[W, Word]):
         return False
 
     def decomposition_function(self, c: W) -> Optional[Tuple[W, ...]]:
-        if c.just_prefix or not c.patterns:
+        if c.marked or c.just_prefix or not c.patterns:
             return None
         # only for irredundant pattern sets: the child is then redundant, so the strategy
         # does not apply to it again and the universe stays finite
@@ -426,6 +445,8 @@ class NormaliseStats(_JsonMixin, DisjointUnionStrategy[W, Word]):
         super().__init__(**kw)
 
     def decomposition_function(self, c: W) -> Optional[Tuple[W, ...]]:
+        if c.marked:
+            return None
         st, _ = restrict_stats(c.stats, c.effective_letters())
         if st == c.stats:
             return None
@@ -458,7 +479,7 @@ class SwapLetters(_JsonMixin, SymmetryStrategy[W, Word]):
         return c.alphabet[0], c.alphabet[1]
 
     def decomposition_function(self, c: W) -> Optional[Tuple[W, ...]]:
-        if len(c.alphabet) < 2:
+        if c.marked or len(c.alphabet) < 2:
             return None
         a, b = self._ab(c)
         return (
@@ -524,7 +545,7 @@ class RemoveFront(_JsonMixin, CartesianProductStrategy[W, Word]):
         )
 
     def decomposition_function(self, c: W) -> Optional[Tuple[W, ...]]:
-        if c.just_prefix or c.is_empty():
+        if c.marked or c.just_prefix or c.is_empty():
             return None
         if self.swap and len(c.alphabet) < 2:
             return None
@@ -594,6 +615,8 @@ class ExpandFactory(StrategyFactory[W]):
         self.ks = tuple(ks)
 
     def __call__(self, c: W):
+        if c.marked:
+            return
         for k in self.ks:
             yield Expand(k=k)
 
@@ -623,7 +646,7 @@ class RuleFactory(StrategyFactory[W]):
         self.foreign_first = foreign_first
 
     def __call__(self, c: W):
-        if c.just_prefix:
+        if c.marked or c.just_prefix:
             return
         own = Expand()(c)
         foreign = Expand()(c.with_(prefix=c.prefix[:-1])) if c.prefix else None
@@ -662,7 +685,7 @@ class WordAtom(VerificationStrategy[W, Word]):
         super().__init__(ignore_parent=True)
 
     def verified(self, c: W) -> bool:
-        return c.just_prefix
+        return c.just_prefix and not c.marked
 
     def formal_step(self) -> str:
         return "is a single word"
@@ -728,7 +751,7 @@ class VerifyByPrefix(VerificationStrategy[W, Word]):
         super().__init__(ignore_parent=ignore_parent)
 
     def verified(self, c: W) -> bool:
-        return (not c.just_prefix) and (not c.is_empty()) and c.prefix in self.prefixes
+        return (not c.marked) and (not c.just_prefix) and (not c.is_empty()) and c.prefix in self.prefixes
 
     def formal_step(self) -> str:
         return f"verified by prefix in {self.prefixes}" + (f" (inner {self.inner})" if self.inner else "")
@@ -789,6 +812,93 @@ class VerifyByPrefix(VerificationStrategy[W, Word]):
 
 
 # ---------------------------------------------------------------------------
+# a rule whose object map is NOT a bijection: marked words  (custom constructor)
+
+
+from comb_spec_searcher.strategies.constructor.base import Constructor as _Constructor  # noqa: E402
+from comb_spec_searcher.strategies.strategy import Strategy as _Strategy  # noqa: E402
+
+
+class Multiple(_Constructor):
+    """parent = k copies of the child (k preimages per child object)."""
+
+    def __init__(self, k: int):
+        self.k = k
+
+    def can_be_equivalent(self) -> bool:
+        return False
+
+    def get_equation(self, lhs_func, rhs_funcs):
+        import sympy
+
+        return sympy.Eq(lhs_func, self.k * rhs_funcs[0])
+
+    def reliance_profile(self, n: int, **parameters: int):
+        return ({"n": (n,)},)
+
+    def get_terms(self, parent_terms, subterms, n: int):
+        return Counter({p: self.k * v for p, v in subterms[0](n).items() if v})
+
+    def get_sub_objects(self, subobjs, n: int):
+        for param, objs in subobjs[0](n).items():
+            yield (param, (objs,))
+
+    def random_sample_sub_objects(self, parent_count: int, subsamplers, subrecs, n: int, **parameters: int):
+        return (subsamplers[0](n=n, **parameters),)
+
+    def equiv(self, other, data=None):
+        return (isinstance(other, Multiple) and other.k == self.k, None)
+
+
+class Unmark(_JsonMixin, _Strategy[W, Word]):
+    """{x,y,z}·C  ->  C   (three-to-one)."""
+
+    SETTINGS = ()
+
+    def __init__(self, **kw):
+        kw.setdefault("ignore_parent", True)
+        kw.setdefault("possibly_empty", False)
+        kw.setdefault("inferrable", False)
+        super().__init__(**kw)
+
+    def can_be_equivalent(self) -> bool:
+        return False
+
+    def is_two_way(self, comb_class) -> bool:
+        return False
+
+    def is_reversible(self, comb_class) -> bool:
+        return False
+
+    def shifts(self, comb_class, children=None):
+        return (0,)
+
+    def decomposition_function(self, c):
+        if not c.marked or c.is_empty():
+            return None
+        return (c.with_(marked=False),)
+
+    def constructor(self, comb_class, children=None):
+        return Multiple(len(MARKS))
+
+    def reverse_constructor(self, idx, comb_class, children=None):
+        raise NotImplementedError
+
+    def extra_parameters(self, comb_class, children=None):
+        return (identity_map(comb_class.stats),)
+
+    def formal_step(self) -> str:
+        return "forget the mark"
+
+    def forward_map(self, comb_class, obj, children=None):
+        return (Word(obj[1:]),)
+
+    def backward_map(self, comb_class, objs, children=None):
+        for m in MARKS:
+            yield Word(m + objs[0])
+
+
+# ---------------------------------------------------------------------------
 # packs
 
 
@@ -815,6 +925,8 @@ def make_pack(name: str) -> StrategyPack:
     for f in feats:
         if f in ("base", "norm"):
             continue
+        elif f == "marked":  # start classes {x,y,z}·C: a three-to-one rule with a custom constructor
+            initial = [Unmark()] + initial
         elif f == "rfswap":  # the product strategy hands on a letter-swapped second factor
             initial = [RemoveFront(norm=norm, swap=True)]
         elif f == "swapped":  # initial / expansion exchanged
@@ -883,8 +995,10 @@ def make_pack(name: str) -> StrategyPack:
 _BF_CACHE: Dict[Tuple, List[Counter]] = {}
 
 
-def brute_terms(c: W, n: int) -> Counter:
+def brute_terms(c, n: int) -> Counter:
     """Counter {parameter tuple: count} of the objects of size n, by plain enumeration."""
+    if c.marked:
+        return Counter({p: len(MARKS) * v for p, v in brute_terms(c.with_(marked=False), n).items()})
     key = c.key()
     lst = _BF_CACHE.get(key)
     if lst is None:
@@ -900,7 +1014,9 @@ def brute_terms(c: W, n: int) -> Counter:
     return lst[n]
 
 
-def brute_objects(c: W, n: int) -> List[str]:
+def brute_objects(c, n: int) -> List[str]:
+    if c.marked:
+        return [m + w for w in brute_objects(c.with_(marked=False), n) for m in MARKS]
     if any(p in c.prefix for p in c.patterns) or n < len(c.prefix):
         return []
     if c.just_prefix:
@@ -913,7 +1029,7 @@ def brute_objects(c: W, n: int) -> List[str]:
     return res
 
 
-def brute_empty(c: W) -> bool:
+def brute_empty(c) -> bool:
     """Exact emptiness: a class is non-empty iff its prefix avoids the patterns
     (then the prefix itself is an object)."""
     return any(p in c.prefix for p in c.patterns)
@@ -923,7 +1039,9 @@ def brute_empty(c: W) -> bool:
 # domain gate: the contracts of DESIGN 2.3, checked set-theoretically
 
 
-def gate_class(c: W, N: int) -> Optional[str]:
+def gate_class(c, N: int) -> Optional[str]:
+    if c.marked:
+        return gate_class(c.with_(marked=False), N)
     objs = [o for n in range(N + 1) for o in brute_objects(c, n)]
     lib_objs = [str(o) for n in range(N + 1) for o in c.objects_of_size(n)]
     if sorted(objs) != sorted(lib_objs):
@@ -963,6 +1081,18 @@ def gate_rule(rule, N: int) -> Optional[str]:
             return f"verification rule for unverified {c!r}"
         return None
     strat = rule.strategy
+    if isinstance(strat, Unmark):
+        child_objs = set(o for n in range(N + 1) for o in brute_objects(children[0], n))
+        pre: Dict[str, set] = {}
+        for o in (x for n in range(N + 1) for x in brute_objects(c, n)):
+            (img,) = rule.forward_map(Word(o))
+            if str(img) not in child_objs or Word(img).size() != Word(o).size():
+                return f"unmark forward_map of {o}"
+            pre.setdefault(str(img), set()).add(o)
+        for w in child_objs:
+            if set(map(str, rule.backward_map((Word(w),)))) != pre.get(w, set()) or len(pre.get(w, ())) != len(MARKS):
+                return f"unmark backward_map of {w}"
+        return None
     ep = strat.extra_parameters(c, children)
     if len(ep) != len(children):
         return "extra_parameters length"
